@@ -1,9 +1,12 @@
 // ---- shim udp_env: std::net::SocketAddr as the UDP code uses it, module paths (TRUSTED) ----
 pub mod session { pub use super::StreamReader; pub use super::Stream; }
+#[derive(Clone, Copy)]
 pub struct SocketAddrV4 { pub ip: Ipv4Addr, pub port: u16 }
+#[derive(Clone, Copy)]
 pub struct SocketAddrV6 { pub ip: Ipv6Addr, pub port: u16 }
 impl SocketAddrV4 { pub fn ip(&self) -> (r: &Ipv4Addr) ensures *r == self.ip { &self.ip } pub fn port(&self) -> (r: u16) ensures r == self.port { self.port } }
 impl SocketAddrV6 { pub fn ip(&self) -> (r: &Ipv6Addr) ensures *r == self.ip { &self.ip } pub fn port(&self) -> (r: u16) ensures r == self.port { self.port } }
+#[derive(Clone, Copy)]
 pub enum SocketAddr { V4(SocketAddrV4), V6(SocketAddrV6) }
 impl From<(Ipv4Addr, u16)> for SocketAddr {
     fn from(t: (Ipv4Addr, u16)) -> (r: SocketAddr) ensures r == SocketAddr::V4(SocketAddrV4 { ip: t.0, port: t.1 }) { SocketAddr::V4(SocketAddrV4 { ip: t.0, port: t.1 }) }
@@ -30,17 +33,15 @@ pub fn resolve_host_with_cache(host: &String, port: u16) -> (r: Result<SocketAdd
 // incoming: PROPHECY of the datagrams the socket will deliver before it fails; recv_from truncates to the buffer (OS semantics)
 // from: PROPHECY of the source address of each incoming datagram (same length as incoming);  out: datagrams handed to send_to
 pub struct UdpLog { pub ghost incoming: Seq<Seq<u8>>, pub ghost from: Seq<int>, pub ghost sent: Seq<u8>, pub ghost n_sent: nat, pub ghost out: Seq<(Seq<u8>, int)> }
-// a socket address as the client's reply path sees it: an opaque identity (Copy, like std's SocketAddr)
-#[derive(Clone, Copy)]
-pub struct PeerAddr { pub ghost id: int }
+// socket addresses are compared through an opaque identity
 pub struct UdpSocket { pub _p: () }
 impl UdpSocket {
     #[verifier::external_body]
-    pub fn recv_from(&self, buf: &mut [u8], fx: &mut Ghost<UdpLog>) -> (r: io::Result<(usize, PeerAddr)>)
+    pub fn recv_from(&self, buf: &mut [u8], fx: &mut Ghost<UdpLog>) -> (r: io::Result<(usize, SocketAddr)>)
         ensures final(buf)@.len() == old(buf)@.len(), final(fx)@.sent == old(fx)@.sent, final(fx)@.n_sent == old(fx)@.n_sent, final(fx)@.out == old(fx)@.out,
             old(fx)@.incoming.len() == 0 ==> r is Err && final(fx)@.incoming == old(fx)@.incoming && final(fx)@.from == old(fx)@.from,
             old(fx)@.incoming.len() > 0 ==> r is Ok && final(fx)@.incoming == old(fx)@.incoming.drop_first()
-                && (old(fx)@.from.len() > 0 ==> final(fx)@.from == old(fx)@.from.drop_first() && r->Ok_0.1.id == old(fx)@.from[0])
+                && (old(fx)@.from.len() > 0 ==> final(fx)@.from == old(fx)@.from.drop_first() && sockaddr_id(r->Ok_0.1) == old(fx)@.from[0])
                 && r->Ok_0.0 == (if old(fx)@.incoming[0].len() <= old(buf)@.len() { old(fx)@.incoming[0].len() } else { old(buf)@.len() })
                 && final(buf)@.subrange(0, r->Ok_0.0 as int) == old(fx)@.incoming[0].subrange(0, r->Ok_0.0 as int),
     { unimplemented!() }
@@ -56,8 +57,8 @@ impl UdpSocket {
 }
 // what send_to accepts as a destination: an opaque identity
 pub trait VxAddr { spec fn aid(&self) -> int; }
-impl VxAddr for PeerAddr { open spec fn aid(&self) -> int { self.id } }
 pub uninterp spec fn sockaddr_id(a: SocketAddr) -> int;
+impl VxAddr for SocketAddr { open spec fn aid(&self) -> int { sockaddr_id(*self) } }
 impl VxAddr for &SocketAddr { open spec fn aid(&self) -> int { sockaddr_id(**self) } }
 pub struct SendErr;
 pub struct Stream { pub id: u32 }
